@@ -22,6 +22,7 @@ def run(repo, run, tier):
     retry_step(repo, run)
     controller(repo, run)
     estimate(repo, run)
+    richardson_retry(repo, run)
 
 
 def typestate(repo, run):
@@ -246,3 +247,86 @@ def estimate(repo, run):
     run.judged(rid, "estimate guarded by `tableau_final.shape[0] == 2`", ok=okg)
     if not okg:
         run.report("C05.4", ITY, base, "get_error_estimate no longer checks that an embedded row exists", text="two-row guard")
+
+
+def richardson_retry(repo, run):
+    """Richardson wrappers: a rejected step is retried (recursive call) with the controller's proposal or a halved step, never returned."""
+    rid = run.rule("C05.5", "Richardson wrapper __call__: when the controller rejects the step the wrapper calls itself again with the next (smaller) step and "
+                            "returns that call's result; the step handed to the retry is the controller's proposal or obtained from it by halving; the error "
+                            "fed to the controller is the difference of the last two diagonal entries of the tableau", floor=4)
+    fn = repo.get(ITY, extract.RICH + ".__call__")
+    run.analysed_fn(ITY, fn)
+    upd = [st for st in walk_no_nested(fn) if isinstance(st, ast.Assign) and isinstance(st.value, ast.Call) and dotted(st.value.func) == "self.update_timestep"
+           and isinstance(st.targets[0], ast.Tuple) and len(st.targets[0].elts) == 2]
+    if len(upd) != 1:
+        raise AnalysisError("Richardson __call__: controller call not found")
+    prop_name, redo_name = [e.id for e in upd[0].targets[0].elts]
+    rec = [c for c in ast.walk(fn) if isinstance(c, ast.Call) and isinstance(c.func, ast.Name) and c.func.id == "self"]
+    ok = len(rec) == 1
+    guard = None
+    if ok:
+        st = rec[0]
+        while not isinstance(st, ast.stmt):
+            st = st._parent
+        guard = st._parent
+        ok = isinstance(guard, ast.If) and src(guard.test) == redo_name and st in guard.body
+        # result of the retry replaces (timestep, (dTime, dState))
+        ok = ok and isinstance(st, ast.Assign) and "self.dTime" in src(st.targets[0]) and "self.dState" in src(st.targets[0])
+    run.judged(rid, "retry: %s under `%s`" % (src(rec[0])[:80] if rec else None, src(guard.test) if isinstance(guard, ast.If) else None), ok=ok)
+    if not ok:
+        run.report("C05.5", ITY, rec[0] if rec else fn, "a step rejected by the controller is not retried by a recursive call whose result replaces the rejected one", text="Richardson retry structure")
+        return
+    arg = rec[0].args[4] if len(rec[0].args) > 4 else None
+    # provenance of the retry step: assigned from the proposal, possibly halved in a loop
+    okp = isinstance(arg, ast.Name)
+    if okp:
+        defs = [s2 for s2 in walk_no_nested(fn) if isinstance(s2, (ast.Assign, ast.AugAssign)) and any(
+            isinstance(x, ast.Name) and x.id == arg.id and isinstance(x.ctx, ast.Store) for x in ast.walk(s2))]
+        for d in defs:
+            if isinstance(d, ast.Assign):
+                v = d.value
+                if isinstance(v, ast.Call) and fname(v) == "copy" and v.args:
+                    v = v.args[0]
+                if not (isinstance(v, ast.Name)):
+                    okp = False
+            else:
+                try:
+                    cst = const_value(d.value)
+                except ValueError:
+                    okp = False
+                    continue
+                if not (isinstance(d.op, (ast.Div, ast.Mult)) and cst in (2, 2.0, 0.5)):
+                    okp = False
+        okp = okp and any(isinstance(d, ast.Assign) and isinstance(d.value, ast.Name) and d.value.id == prop_name for d in defs)
+    run.judged(rid, "retry step `%s` derives from the controller's proposal `%s`" % (src(arg) if arg is not None else None, prop_name), ok=okp)
+    if not okp:
+        run.report("C05.5", ITY, rec[0], "the step used for the retry is not the controller's proposal (or a power-of-two multiple of the attempted step chosen against it)")
+    # redo may only be cleared explicitly in the branch that grows the step
+    clears = [s2 for s2 in walk_no_nested(fn) if isinstance(s2, ast.Assign) and isinstance(s2.targets[0], ast.Name) and s2.targets[0].id == redo_name
+              and isinstance(s2.value, ast.Constant)]
+    okc = all(s2.value.value is False and any(isinstance(a, ast.If) and "symplectic" in src(a.test) for a in ancestors_of(s2)) for s2 in clears)
+    run.judged(rid, "redo flag overridden only in the symplectic step-doubling branch (%d place(s))" % len(clears), ok=okc)
+    if not okc:
+        run.report("C05.5", ITY, clears[0], "the controller's redo flag is overridden outside the symplectic step-selection branch: a rejected step is handed back as accepted")
+    # error estimate fed to the controller
+    diff_st = [s2 for s2 in walk_no_nested(fn) if isinstance(s2, ast.Assign) and any(
+        isinstance(t, ast.Subscript) and is_self_attr(t.value, "solver_dict") and isinstance(t.slice, ast.Constant) and t.slice.value == "diff" for t in s2.targets)]
+    ar = repo.get(ITY, extract.RICH + ".adaptive_richardson")
+    rets = [s2 for s2 in walk_no_nested(ar) if isinstance(s2, ast.Return)]
+    oke = len(diff_st) == 1 and len(rets) == 1 and isinstance(rets[0].value, ast.Tuple) and len(rets[0].value.elts) == 3
+    if oke:
+        third = rets[0].value.elts[2]
+        c = Canon()
+        oke = c.poly(third) in (c.poly(ast.parse("self.stage_values[m - 1, m - 1] - self.stage_values[m, m]", mode="eval").body),
+                                c.poly(ast.parse("self.stage_values[m, m] - self.stage_values[m - 1, m - 1]", mode="eval").body))
+    run.judged(rid, "error estimate = difference of the last two diagonal tableau entries", ok=oke)
+    if not oke:
+        run.report("C05.5", ITY, rets[0] if rets else ar, "the error estimate handed to the controller is not the difference of the last two diagonal entries of the extrapolation tableau",
+                   text="Richardson error estimate")
+
+
+def ancestors_of(node):
+    p = getattr(node, "_parent", None)
+    while p is not None:
+        yield p
+        p = getattr(p, "_parent", None)
